@@ -108,6 +108,11 @@ func (st *stats) record(h uint64, o Outcome, scen func() []byte) {
 	defer st.mu.Unlock()
 	if o.Skip {
 		st.Skipped++
+		for _, l := range o.Labels {
+			if strings.HasPrefix(l, "skip:") {
+				st.Labels[l]++ // why it left the domain
+			}
+		}
 		return
 	}
 	st.Evals++
